@@ -44,7 +44,7 @@ def gen(ch, tier):
                 pri_crc=ch.choice('pc', (0, 0, 2, 1)), blk_crc=ch.choice('bc', (0, 0, 1, 2)), window=ch.pick('window', 1 << 16),
                 wsize=24 if tier == 'quick' else 96, accept=ch.coin('accept', 2, 3), dst_key=ch.choice('dstkey', ('right', 'right', 'right', 'wrong', 'missing')),
                 falg=ch.choice('falg', (1, 3)), scope=ch.choice('scope', ([[0, 1], [-1, 1]], [[0, 1], [-1, 1], [-2, 1]], [[-1, 1]])),
-                cbits=ch.choice('cbits', (None, None, 128, 256)), tgt_ext=(kind != 'foreign' and ch.coin('tgtext', 1, 3)), split_assoc=ch.coin('split', 1, 2), typed_ext=ch.coin('typed', 1, 2), svc_source=ch.coin('svcsrc', 1, 3), fixup=True)
+                cbits=ch.choice('cbits', (None, None, 128, 256)), ivmode=ch.choice('ivmode', ('list', 'list', 'list', 'random', 'short')), tgt_ext=(kind != 'foreign' and ch.coin('tgtext', 1, 3)), split_assoc=ch.coin('split', 1, 2), typed_ext=ch.coin('typed', 1, 2), svc_source=ch.coin('svcsrc', 1, 3), fixup=True)
 
 
 def _kid(plan):
@@ -79,7 +79,9 @@ def _policy(plan):
     if plan['kind'] == 'foreign':
         return []
     ivs = []
-    for ix in range(0, 600):
+    # 'random': the documented default, an empty list ("leave empty to use random"); 'short': a list that runs out after the
+    # first bundle - the source must go on encrypting, with initialization vectors of its own
+    for ix in range(0, {'random': 0, 'short': 1}.get(plan.get('ivmode'), 600)):
         ivs.append(_iv(C03.seq_code(ix)).hex())
         if plan.get('tgt_ext'):
             ivs.append((b'XV' + _iv(C03.seq_code(ix))[2:]).hex())
@@ -383,7 +385,7 @@ def _drive(run, plan, har):
     if plan['kind'].startswith('report-'):
         return _drive_report(run, plan, har)
     stats = run.stats
-    cfg = bc.digest({key: plan[key] for key in ('kind', 'plen', 'others', 'pri_crc', 'blk_crc', 'dst_key', 'accept', 'falg', 'scope', 'tgt_ext', 'split_assoc', 'typed_ext', 'svc_source', 'cbits') if key in plan})
+    cfg = bc.digest({key: plan[key] for key in ('kind', 'plen', 'others', 'pri_crc', 'blk_crc', 'dst_key', 'accept', 'falg', 'scope', 'tgt_ext', 'split_assoc', 'typed_ext', 'svc_source', 'cbits', 'ivmode') if key in plan})
     stats['kind.' + ('foreign' if plan['kind'] == 'foreign' else plan['kind'][:4])] = 1
     stats['accept.' + ('on' if plan['accept'] else 'off')] = 1
     if plan.get('tgt_ext'):
@@ -392,6 +394,9 @@ def _drive(run, plan, har):
             stats['kind.split_assoc'] = 1
     if plan['plen'] == 0:
         stats['plain.empty'] = 1
+    if plan['kind'] != 'foreign' and plan.get('ivmode') in ('random', 'short'):
+        stats['cfg.iv_' + plan['ivmode']] = 1
+    seen_ivs = set()
     index = 0
     first = make_copy(plan, har, index)
     if first is None:
@@ -476,10 +481,29 @@ def _drive(run, plan, har):
     for (akind, aval) in alterations:
         index += 1
         copy = make_copy(plan, har, index)
+        plain = plaintext(plan, index)
+        if copy is not None and plan['kind'] != 'foreign':
+            # every further bundle of the source is under the same policy: it carries a confidentiality block too, never the
+            # plaintext, and never an initialization vector that was used before with this key
+            try:
+                later = rfc9171.decode_bundle(copy)
+            except rfc9171.Malformed as err:
+                run.viols.append(('wire', 'source-output-malformed', 'bundle #%d of the source is not well-formed: %s' % (index, err)))
+                return
+            lbcbs = sc.sec_blocks(later, rfc9171.TYPE_BCB)
+            if not lbcbs or (len(plain) and rfc9171.payload(later) == plain):
+                run.viols.append(('wire', 'later-bundle-not-encrypted', 'bundle #%d of the source left the node %s although policy demands encryption (IV configuration: %s)' % (
+                    index, 'without a confidentiality block' if not lbcbs else 'with the plaintext as payload', plan.get('ivmode', 'list'))))
+                return
+            for res in bpsec_cose.parse_asb(lbcbs[0]['btsd'])['results']:
+                ivec = cbor2.loads(res[0][1])[1].get(5)
+                if ivec in seen_ivs:
+                    run.viols.append(('wire', 'iv-reused', 'bundle #%d of the source reuses initialization vector %s' % (index, ivec.hex() if isinstance(ivec, bytes) else ivec)))
+                    return
+                seen_ivs.add(ivec)
         if copy is None or len(copy) != len(first):
             continue
         orig = rfc9171.decode_bundle(copy)
-        plain = plaintext(plan, index)
         if akind == 'bit':
             arr = bytearray(copy)
             arr[aval // 8] ^= 0x80 >> (aval % 8)
